@@ -13,7 +13,7 @@ echo
 echo "| change | property | check result | other checks | what it needs to manifest |"
 echo "|---|---|---|---|---|"
 } > $out
-for d in seeded/C*-[AB]; do
+for d in seeded/C*-*[AB]; do
   n=$(basename $d); id=${n%-*}
   p=$d/patch.diff; [ -f $d/patch.rebased.diff ] && p=$d/patch.rebased.diff
   r=$(tools/try_mutant.sh $p $id $TIER $WT 2>&1 | tail -1)
